@@ -111,6 +111,13 @@ Ctr(st, op) ==
     [] op.k = "skip" -> st.len
     [] OTHER -> c
 Wrapped(st) == ~Fits(st.ctr)
+\* number of elements a pull asks for (C01 / C05 speak about histories whose cumulative requests stay below 2^64)
+Requested(st, op) ==
+  CASE op.k \in {"next", "nextid"} -> N(0, 1)
+    [] op.k = "chunk" -> op.n
+    [] op.k = "bnext" -> st.buf
+    [] OTHER -> Zero
+IsPull(op) == op.k \in {"next", "nextid", "bnext"} \/ (op.k = "chunk" /\ op.n # Zero)
 
 (***************************************************************************)
 (* Generation of scripts from the boundary domain                           *)
@@ -141,8 +148,8 @@ GenOps(len) ==
 BInit ==
   /\ \E s \in Bnd, e \in Bnd, l \in 0..3 :
        st = IF Family = "range"
-              THEN [base |-> s, len |-> LenOfBounds(s, e), pos |-> Zero, buf |-> Zero, done |-> FALSE, start |-> s, end |-> e, skipped |-> FALSE, skipFrom |-> Zero, ctr |-> Zero]
-              ELSE [base |-> N(0, 100), len |-> N(0, l), pos |-> Zero, buf |-> Zero, done |-> FALSE, start |-> Zero, end |-> N(0, l), skipped |-> FALSE, skipFrom |-> Zero, ctr |-> Zero]
+              THEN [base |-> s, len |-> LenOfBounds(s, e), pos |-> Zero, buf |-> Zero, done |-> FALSE, start |-> s, end |-> e, skipped |-> FALSE, skipFrom |-> Zero, ctr |-> Zero, endSeen |-> FALSE, req |-> Zero]
+              ELSE [base |-> N(0, 100), len |-> N(0, l), pos |-> Zero, buf |-> Zero, done |-> FALSE, start |-> Zero, end |-> N(0, l), skipped |-> FALSE, skipFrom |-> Zero, ctr |-> Zero, endSeen |-> FALSE, req |-> Zero]
   /\ h = << >>
 
 BNext ==
@@ -151,7 +158,8 @@ BNext ==
        /\ op.k = "bnext" => st.buf # Zero
        /\ op.k = "bnew" => st.buf = Zero
        \* huge pulls are only generated where the harness can consume them (a few items are taken)
-       /\ st' = [Expected(st, op)[2] EXCEPT !.ctr = Ctr(st, op)]
+       /\ st' = [Expected(st, op)[2] EXCEPT !.ctr = Ctr(st, op), !.req = Add(@, Requested(st, op)),
+                                            !.endSeen = @ \/ (IsPull(op) /\ Expected(st, op)[1].k = "none")]
        /\ h' = Append(h, [k |-> op.k, n |-> ToLog(op.n), take |-> op.take])
 
 BSpec == BInit /\ [][BNext]_bvars
